@@ -92,6 +92,13 @@ def classify(V, M):
             out.update(kind='TIME-VALUE-ONLY'); return out
         if fn.startswith('lookup_encode_') and V[2] == (val,):
             out.update(kind='LOOKUP-VALUE-ONLY', enum=fn[len('lookup_encode_'):]); return out
+    if V[0] == 'ite' and (V[1] == raw or V[1] == ('call', ('name', 'bool'), (raw,), ())):
+        # `if field.raw_value:` -- the raw value is preferred only when it is truthy: a raw value of 0 (a legal tick count, date or code) takes
+        # the path meant for "no raw value".  Read like the `is not None` form and marked: the rules report it with raw value 0 as the witness.
+        sub = classify(('ite', ('cmp', 'is not', raw, NONE), V[2], V[3]), M)
+        if sub.get('kind') not in ('?',):
+            sub['raw_truthy'] = True
+        return sub
     if V[0] == 'ite' and V[1] == ('cmp', 'is not', raw, NONE):
         a, b = V[2], V[3]
         if a == raw and b[0] == 'call' and b[1][0] == 'name' and b[1][1].startswith('lookup_encode_') and b[2] == (val,):
@@ -422,6 +429,10 @@ def gen_enc(chk, program, rule='GEN-ENC', mask_rule='ENC-MASK', want=('table', '
                     chk.unknown(rule, inst, cls.get('why', 'unrecognised producer'), PG, line)
                     continue
                 chk.check(cls.get('id') == f.id, rule, f"{inst}::id", file=PG, line=line, func=fname, expected=f.id, found=cls.get('id'))
+                if cls.get('raw_truthy'):
+                    chk.violation(rule, f"{inst}::raw-value-preferred-when-present", file=PG, line=line, func=fname, expected='the decoded raw value is written back whenever there is one (`raw_value is not None`)',
+                                  found='`if raw_value:` -- a raw value of 0 is treated as absent', detail='witness: raw value 0 (UTC offset 0, interval 0, the first day of the epoch, code 0): the field is re-encoded from '
+                                  'the displayed value instead, which for durations is not even accepted by encode_time')
                 ek = EXPECT_KIND[f.type]
                 okk = cls['kind'] == ek
                 chk.check(okk, rule, f"{inst}::producer", file=PG, line=line, func=fname, expected=ek, found=cls['kind'],
@@ -728,6 +739,12 @@ def lookup_inv(chk, program, rule='LOOKUP-INV'):
     chk.unit('lookup_names', n)
 
 def enc_state(chk, program, rule='ENC-STATE'):
+    n = enc_state_attrs(chk, program, rule)
+    # which function encodes a message depends on that message only: decided by interpretation for every definition (enc_lookup)
+    enc_lookup(chk, program, rule)
+    chk.unit('encoder_self_accesses', n)
+
+def enc_state_attrs(chk, program, rule='ENC-STATE'):
     """the encoder's only instance state is the fast-packet sequence counter, touched only by __init__ and _encode_fast_message;
     the per-PGN encode function and the identifier are resolved afresh for every message (no cache between messages)"""
     import ast
@@ -803,6 +820,4 @@ def enc_state(chk, program, rule='ENC-STATE'):
         else:
             for q, how, node in us:
                 chk.check(True, rule, f"{q}::self.{attr}", file=E, line=node.lineno, func=q, expected='configuration: bound in __init__, only read afterwards', found=how)
-    # which function encodes a message depends on that message only: decided by interpretation for every definition (enc_lookup)
-    enc_lookup(chk, program, rule)
-    chk.unit('encoder_self_accesses', n)
+    return n
